@@ -36,6 +36,9 @@ TRANSCRIBED = [
     ("tensordict/base.py", "TensorDictBase", "_batch_size_setter_checked", "Td.childBatch (a nested child with fewer batch dims grows)"),
     ("tensordict/_td.py", "_SubTensorDict", "__init__", "Td.subInit (index normalisation, batch size)"),
     ("tensordict/_td.py", "_SubTensorDict", "_set_str", "Td.entryWriteK (key missing from the destination) / Td.subSet"),
+    ("tensordict/_td.py", "_SubTensorDict", "_set_at_str", "Td.writeThrough / Td.subsubSet (read the window, write into it, assign it back to the source)"),
+    ("tensordict/base.py", "TensorDictBase", "_get_at_str", "Td.leafGet on the entry itself (get_at, _SubTensorDict reads: Td.subGet / subsubGet)"),
+    ("tensordict/base.py", "TensorDictBase", "_get_at_tuple", "Td.leafGet on the entry itself (get_at with a nested key)"),
 ]
 
 
